@@ -123,6 +123,9 @@ def build_alphabet(darsia):
     def wass(kind, pair, shape=(4, 5)):
         from vf.gen import wass as W
 
+        if kind.endswith("_big") or kind.endswith("_big_aa"):
+            shape = (8, 9)  # 72 cells: the reduced matrices are no longer stored with sorted indices
+
         r = np.random.default_rng(100 + pair)
         a, b = W.mass_pair(r, shape, "dense")
         m1, m2 = W.images(darsia, a, b, [1.0 + 0.25 * pair, 0.75])
@@ -137,6 +140,9 @@ def build_alphabet(darsia):
             "bregman_L2": ("bregman", "pressure", "direct", 0),
             "bregman_L2_flux_reduced": ("bregman", "flux_reduced", "direct", 0),
             "bregman_amg_custom": ("bregman", "pressure", "amg", 0),
+            "bregman_big": ("bregman", "pressure", "direct", 0),
+            "bregman_big_aa": ("bregman", "pressure", "direct", 2),
+            "newton_big": ("newton", "pressure", "direct", 0),
             "newton_aa_restart": ("newton", "full", "direct", 3),
         }[kind]
 
@@ -199,6 +205,12 @@ def build_alphabet(darsia):
         "w_bregman_L2fr_A": lambda: wass("bregman_L2_flux_reduced", 0),
         "w_bregman_L2fr_B": lambda: wass("bregman_L2_flux_reduced", 1),
         "w_bregman_amg_custom": lambda: wass("bregman_amg_custom", 0),
+        "w_bregman_big_A": lambda: wass("bregman_big", 0),
+        "w_bregman_big_B": lambda: wass("bregman_big", 1),
+        "w_bregman_big_aa_A": lambda: wass("bregman_big_aa", 0),
+        "w_bregman_big_aa_B": lambda: wass("bregman_big_aa", 1),
+        "w_newton_big_A": lambda: wass("newton_big", 0),
+        "w_newton_big_B": lambda: wass("newton_big", 1),
         "w_adaptive_homog_A": lambda: wass("adaptive_homogeneous", 0),
         "w_adaptive_homog_B": lambda: wass("adaptive_homogeneous", 1),
         "w_newton_aa_restart_A": lambda: wass("newton_aa_restart", 0),
@@ -231,6 +243,7 @@ LETTERS = [
     "w_bregman_amg_A", "w_bregman_amg_B", "w_adaptive_A", "w_adaptive_B", "w_bregman_aa_A", "w_bregman_aa_B", "h1_mgarr_A", "h1_mgarr_B", "mg_upd_A", "mg_upd_B",
     "aa_d2r3_head", "aa_d2r3_tail", "aa_d3r2_head", "aa_d3r2_tail", "w_adaptive_homog_A", "w_adaptive_homog_B", "w_newton_aa_restart_A", "w_newton_aa_restart_B",
     "mg2_small", "mg2_regular", "w_bregman_L2_A", "w_bregman_L2_B", "w_bregman_L2fr_A", "w_bregman_L2fr_B", "w_bregman_amg_custom",
+    "w_bregman_big_A", "w_bregman_big_B", "w_bregman_big_aa_A", "w_bregman_big_aa_B", "w_newton_big_A", "w_newton_big_B",
 ]
 # letters that can share state with each other (same object or same module-level default)
 GROUPS = {
@@ -249,6 +262,9 @@ GROUPS = {
     "w_bregman_amg": ["w_bregman_amg_A", "w_bregman_amg_B", "w_bregman_amg_custom"],
     "mg_two_level": ["mg2_small", "mg2_regular"],
     "w_bregman_L2": ["w_bregman_L2_A", "w_bregman_L2_B"],
+    "w_bregman_big": ["w_bregman_big_A", "w_bregman_big_B"],
+    "w_bregman_big_aa": ["w_bregman_big_aa_A", "w_bregman_big_aa_B"],
+    "w_newton_big": ["w_newton_big_A", "w_newton_big_B"],
     "w_bregman_L2_flux_reduced": ["w_bregman_L2fr_A", "w_bregman_L2fr_B"],
     "w_adaptive": ["w_adaptive_A", "w_adaptive_B"],
     "w_bregman_aa": ["w_bregman_aa_A", "w_bregman_aa_B"],
